@@ -13,6 +13,7 @@ from packaging.specifiers import InvalidSpecifier
 from packaging.specifiers import SpecifierSet
 from semantic_version.base import AllOf
 from semantic_version.base import AnyOf
+from semantic_version.base import Range
 
 from univers import gem
 from univers import maven
@@ -315,18 +316,24 @@ def get_npm_version_constraints_from_semver_npm_spec(string, cls):
     """
     Return a VersionConstraint for the provided ``string``.
     """
-    spec = semantic_version.NpmSpec(string)
+    try:
+        spec = semantic_version.NpmSpec(string)
+    except AttributeError as e:
+        # NpmSpec fails this way for an hyphen range that is not valid such as "a - b"
+        raise ValueError(f"Invalid npm version range: {string!r}") from e
     clause = spec.clause.simplify()
-    if isinstance(clause, (AnyOf, AllOf)):
-        anyof_constraints = []
-        if isinstance(clause, AnyOf):
-            for allof_clause in clause.clauses:
-                anyof_constraints.extend(get_allof_constraints(cls, allof_clause))
-        elif isinstance(clause, AllOf):
-            alloc = get_allof_constraints(cls, clause)
-            anyof_constraints.extend(alloc)
-        else:
-            raise ValueError(f"Unknown clause type: {spec!r}")
+    if isinstance(clause, Range):
+        # a single comparison such as for ">1.x"
+        clause = AllOf(clause)
+    anyof_constraints = []
+    if isinstance(clause, AnyOf):
+        for allof_clause in clause.clauses:
+            anyof_constraints.extend(get_allof_constraints(cls, allof_clause))
+    elif isinstance(clause, AllOf):
+        alloc = get_allof_constraints(cls, clause)
+        anyof_constraints.extend(alloc)
+    else:
+        raise ValueError(f"Unknown clause type: {spec!r}")
     return anyof_constraints
 
 
